@@ -22,6 +22,9 @@ OUT = os.environ.get("VERIF_OUT") or HOME      # evidence/ and replays/ are writ
 SEED = int(os.environ.get("VERIF_SEED", "1") or "1")
 NPROC = int(os.environ.get("VERIF_NPROC", "16"))
 MAX_SAMPLES = 10
+INTERP_MODE = os.environ.get("VERIF_INTERP") or ""    # set in the child interpreters of interpreter_modes()
+RES_PER_PART = 24
+RES_TOTAL = 640
 
 
 class HarnessError(Exception):
@@ -133,6 +136,9 @@ class Part(object):
         self.harness_errors = []
         self.bad = []                 # raw failing inputs found by enumerators (post-processed later)
         self.extra = {}               # mergeable free-form data: sets are united, ints added
+        self.reservoir = {}           # check name -> uniform sample of executed inputs (re-run under other interpreter modes)
+        self._res_seen = {}
+        self._res_rng = None
         self._known = None
 
     # ---- bookkeeping -------------------------------------------------------------------------
@@ -160,6 +166,23 @@ class Part(object):
         elif desc is not None and not self.samples:
             self.samples.append(desc)
 
+    def reserve(self, check, inp):
+        """Algorithm R with a generator of our own (seeded; never influences what is generated)"""
+        if INTERP_MODE:
+            return
+        if self._res_rng is None:
+            import random
+            self._res_rng = random.Random(mix(SEED, 0x4E5, os.getpid() if False else 0))
+        n = self._res_seen.get(check, 0)
+        self._res_seen[check] = n + 1
+        pool = self.reservoir.setdefault(check, [])
+        if len(pool) < RES_PER_PART:
+            pool.append(inp)
+        else:
+            j = self._res_rng.randrange(n + 1)
+            if j < RES_PER_PART:
+                pool[j] = inp
+
     def split_known(self, failures, inp=None):
         """remove failures whose key is a listed known finding (counted); return the rest"""
         rest = []
@@ -184,6 +207,7 @@ class Part(object):
         run check function fn(inp) -> list of failures.  An exception escaping from the tree under
         test is a failure of the case; an exception from the harness itself is a harness error.
         """
+        self.reserve(check, inp)
         try:
             fails = fn(inp) or []
         except (Falsified, HarnessError, KeyboardInterrupt):
@@ -223,6 +247,9 @@ class Part(object):
         self.notes.extend(other.notes)
         self.harness_errors.extend(other.harness_errors)
         self.bad.extend(other.bad)
+        for k, v in other.reservoir.items():
+            pool = self.reservoir.setdefault(k, [])
+            pool.extend(v[:max(0, RES_TOTAL - len(pool))])
         for k, v in other.extra.items():
             if k not in self.extra:
                 self.extra[k] = v
@@ -393,6 +420,92 @@ def in_thread(fn, *a):
 # finishing: evidence, replay files, output lines
 # --------------------------------------------------------------------------------------------------
 
+# --------------------------------------------------------------------------------------------------
+# other interpreter modes: a sample of the executed cases goes through the same replayable check functions in
+# child interpreters started with PYTHONOPTIMIZE=1 / 2 (assert statements, then docstrings, compiled away)
+# --------------------------------------------------------------------------------------------------
+
+def batch_main(pid, mod, infile, outfile):
+    """child side: run [check, input] pairs, write the failures"""
+    with open(infile) as f:
+        items = json.load(f)
+    part = Part(pid)
+    for i, (check, inp) in enumerate(items):
+        before = len(part.violations)
+        try:
+            part.check(check, mod.CHECKS[check], inp)
+        except HarnessError as e:
+            part.harness_errors.append("batch item %d (%s): %s" % (i, check, e))
+        except BaseException:  # noqa
+            part.harness_errors.append("batch item %d (%s): %s" % (i, check, traceback.format_exc()[-1500:]))
+    with open(outfile, "w") as f:
+        json.dump({"n": len(items), "violations": part.violations, "harness_errors": part.harness_errors,
+                   "known_hits": dict(part.known_hits), "known_examples": part.known_examples}, f, default=repr)
+    return 0
+
+
+def interpreter_modes(part, tier):
+    import shutil
+    import subprocess
+    import tempfile
+    if INTERP_MODE or os.environ.get("VERIF_NO_MODES") == "1" or not part.reservoir:
+        return
+    cap = 128 if tier == "quick" else 512
+    items = []
+    for check in sorted(part.reservoir):
+        pool = part.reservoir[check]
+        step = max(1, len(pool) // cap)
+        items.extend([check, inp] for inp in pool[::step][:cap])
+    try:
+        items = json.loads(json.dumps(items))      # exactly what a replay file would hold
+    except (TypeError, ValueError) as e:
+        part.harness_errors.append("interpreter modes: sampled inputs are not JSON-serialisable: %r" % e)
+        return
+    for it in items:
+        if isinstance(it[1], dict):
+            it[1] = dict((k, x) for k, x in it[1].items() if not str(k).startswith("_"))
+    modes = [("1", "python -O")] if tier == "quick" else [("1", "python -O"), ("2", "python -OO")]
+    d = tempfile.mkdtemp(prefix="vfmodes")
+    try:
+        for level, label in modes:
+            n = min(NPROC, max(1, len(items) // 4))
+            procs = []
+            for j in range(n):
+                chunk = items[j::n]
+                fin, fout = os.path.join(d, "in%s-%d.json" % (level, j)), os.path.join(d, "out%s-%d.json" % (level, j))
+                with open(fin, "w") as f:
+                    json.dump(chunk, f)
+                env = dict(os.environ, VERIF_REPO=REPO, VERIF_OUT=d, VERIF_INTERP=level, PYTHONOPTIMIZE=level,
+                           PYTHONDONTWRITEBYTECODE="1", VERIF_NPROC="1")
+                procs.append((subprocess.Popen([sys.executable, "-m", "vf", part.pid, "batch", fin, fout], cwd=HOME, env=env,
+                                               stdout=subprocess.PIPE, stderr=subprocess.STDOUT), fout, len(chunk)))
+            for p, fout, k in procs:
+                try:
+                    out, _ = p.communicate(timeout=1800)
+                except subprocess.TimeoutExpired:
+                    p.kill()
+                    part.notes.append("interpreter mode %s: a batch of %d cases exceeded its time budget (inconclusive)" % (label, k))
+                    continue
+                try:
+                    with open(fout) as f:
+                        res = json.load(f)
+                except (OSError, ValueError):
+                    part.harness_errors.append("interpreter mode %s: batch produced no result (rc=%s): %s" % (label, p.returncode, out.decode("utf-8", "replace")[-1200:]))
+                    continue
+                part.evaluations += res["n"]
+                part.classes["re-run under " + label] += res["n"]
+                part.harness_errors.extend(res["harness_errors"])
+                for kk, nn in res["known_hits"].items():
+                    part.known_hits[kk] += nn
+                    part.known_examples.setdefault(kk, res["known_examples"].get(kk, {}))
+                for v in res["violations"]:
+                    v["env"] = {"PYTHONOPTIMIZE": level}
+                    v["note"] = ((v.get("note") or "") + " [only checked/observed here under %s, i.e. PYTHONOPTIMIZE=%s]" % (label, level)).strip()
+                    part.violations.append(v)
+    finally:
+        shutil.rmtree(d, ignore_errors=True)
+
+
 def write_replay(pid, v):
     d = os.path.join(OUT, "replays", pid)
     os.makedirs(d, exist_ok=True)
@@ -400,14 +513,22 @@ def write_replay(pid, v):
         v = dict(v, input=dict((k, x) for k, x in v["input"].items() if not str(k).startswith("_")))
     body = {"property": pid, "check": v["check"], "input": v["input"], "expected": v.get("expected"),
             "observed": v.get("observed")}
-    for k in ("key", "note"):
+    for k in ("key", "note", "env"):
         if k in v:
             body[k] = v[k]
-    name = "%s-%016x.json" % (v["check"], h64(json.dumps([v["check"], v["input"]], sort_keys=True, default=repr)))
+    name = "%s-%016x.json" % (v["check"], h64(json.dumps([v["check"], v["input"], v.get("env")], sort_keys=True, default=repr)))
     path = os.path.join(d, name)
     with open(path, "w") as f:
         json.dump(body, f, indent=1, sort_keys=True, default=repr)
     return path
+
+
+def replay_in_env(pid, path, env):
+    import subprocess
+    e = dict(os.environ, VERIF_REPO=REPO, VERIF_INTERP=env.get("PYTHONOPTIMIZE", "env"), PYTHONDONTWRITEBYTECODE="1")
+    e.update(env)
+    p = subprocess.run([sys.executable, "-m", "vf", pid, "replay", path], cwd=HOME, env=e, stdout=subprocess.PIPE, stderr=subprocess.STDOUT)
+    return p.returncode, p.stdout.decode("utf-8", "replace")
 
 
 def replay_regressions(part):
@@ -435,6 +556,17 @@ def replay_regressions(part):
             part.harness_errors.append("regression file %s unusable: %r" % (name, e))
             continue
         before = len(part.violations)
+        env = case.get("env") or {}
+        if env and any(os.environ.get(k) != v for k, v in env.items()):
+            # a case that needs another interpreter mode: replay it in a child started that way
+            rc, out = replay_in_env(part.pid, os.path.join(d, name), env)
+            if rc == 1:
+                part.violations.append({"check": case["check"], "input": case["input"], "env": env, "expected": case.get("expected"),
+                                        "observed": out[-400:]})
+            elif rc != 0:
+                part.harness_errors.append("regression file %s under %r: exit %s: %s" % (name, env, rc, out[-600:]))
+            n += 1
+            continue
         try:
             part.check(case["check"], fn, case["input"])
         except HarnessError as e:
@@ -451,6 +583,7 @@ def finish(part, tier, t0, rule, assumptions, exhaustive=False, required=(), ext
     pid = part.pid
     if os.environ.get("VERIF_NO_REGRESS") != "1":
         replay_regressions(part)
+    interpreter_modes(part, tier)
     wall = time.time() - t0
     for c in required:
         if part.classes.get(c, 0) == 0:
@@ -458,7 +591,7 @@ def finish(part, tier, t0, rule, assumptions, exhaustive=False, required=(), ext
     # group violations by (check, key/expected/observed signature); report the smallest input per group
     groups = collections.OrderedDict()
     for v in part.violations:
-        sig = (v["check"], v.get("key") or json.dumps([v.get("expected"), v.get("observed")], default=repr)[:120])
+        sig = (v["check"], json.dumps(v.get("env")), v.get("key") or json.dumps([v.get("expected"), v.get("observed")], default=repr)[:120])
         cur = groups.get(sig)
         size = len(json.dumps(v["input"], default=repr))
         if cur is None or size < cur[0]:
